@@ -402,4 +402,42 @@ theorem C08_key_address (env : Env) (net : Network) (sec : Bytes) (h20 : ∀ m, 
   · simp only [bip84Address, forScript, infoForScript_std _ w2, bind, Except.bind, forScriptInfo]
   · simp only [bip49Address, forInfo_std _ w2, forP2s, forScript, infoForScript_std _ w3, bind, Except.bind, forScriptInfo]
 
+/-! ## non-vacuity: the hypotheses are satisfiable -/
+
+/-- a toy codec (hex behind a marker character, no Bech32) that satisfies `CodecLaws` -/
+def toyEnv : Env where
+  b58cEnc d := String.ofList ('x' :: Hex.encodeChars d)
+  b58cDec s := match s.toList with
+    | 'x' :: cs => match Hex.decodeChars cs with
+      | some d => if Hex.encodeChars d = cs ∧ d ≠ [] then some d else none
+      | none => none
+    | _ => none
+  segwitEnc _ _ _ := none
+  bech32Parse _ := none
+  hash160 m := m.take 20 ++ List.replicate (20 - (m.take 20).length) 0
+  sha256 m := m.take 32 ++ List.replicate (32 - (m.take 32).length) 0
+
+theorem toy_laws : CodecLaws toyEnv where
+  b58_rt d hd := by
+    simp [toyEnv, String.toList_ofList, decode_encode, hd]
+  b58_canon s d h := by
+    simp only [toyEnv] at h ⊢
+    split at h
+    · rename_i cs hs
+      split at h
+      · split at h
+        · rename_i d' _ hc
+          injection h with h; subst h
+          rw [hc.1, ← hs, String.ofList_toList]
+        · cases h
+      · cases h
+    · cases h
+  seg_rt _ _ _ _ h := by simp [toyEnv] at h
+  seg_canon _ _ _ _ _ h := by simp [toyEnv] at h
+
+/-- the round-trip theorem applies to a concrete network, kind and hash -/
+example : parseAddress toyEnv net_btc (toyEnv.b58cEnc ([0] ++ List.replicate 20 7)) = .ok (some (.p2pkh (List.replicate 20 7))) :=
+  (C08_addr_rt_b58 toyEnv toy_laws net_btc (by decide) (by decide) (by decide) (.p2pkh (List.replicate 20 7)) rfl (by decide) _
+    (by rfl)).2.1
+
 end Pycoin.Addr
